@@ -592,6 +592,16 @@ func c03World(r *rand.Rand, exact bool) *World {
 			names = append(names, n)
 		}
 	}
+	if r.Intn(5) == 0 {
+		// sibling names that differ only in the kind or amount of white space are different paths
+		base := segs[0] + "/olive oil"
+		for _, v := range []string{base, segs[0] + "/olive  oil", segs[0] + "/olive\u00a0oil", segs[0] + " /olive oil", segs[0] + "/olive oil /x"} {
+			if !seen[v] {
+				seen[v] = true
+				names = append(names, v)
+			}
+		}
+	}
 	nrec := 1 + r.Intn(4)
 	w := &World{Exact: exact, Layout: "2006/01/02"}
 	w.Recipes, w.Basics, w.Unknown = names[:nrec], names[nrec:nrec+2], names[nrec+2:]
